@@ -170,6 +170,37 @@ def split_flush(conn, a):
     return first, second, third
 
 
+def same_future_in_two_conditions(conn, a, c1, c2, flush_between):
+    """ONE Future handle used as the operand of two conditions (optionally in two subroutines): X if a == c1, then Y if a != c2"""
+    arr = conn.new_array(2, init_values=[a, 7])
+    q = Qubit(conn)
+    x = arr.get_future_index(0)
+    with x.if_eq(c1):
+        q.X()
+    if flush_between:
+        conn.flush()
+    with x.if_ne(c2):
+        q.Y()
+    with x.if_lt(c2):
+        q.Z()
+    conn.flush()
+    return arr, q
+
+
+def arrays_on_both_sides_of_a_flush(conn, a, b):
+    """arrays are allocated before AND after a flush; the earlier one is still used afterwards: distinct arrays stay distinct"""
+    first = conn.new_array(2, init_values=[a, 1])
+    conn.flush()
+    second = conn.new_array(3, init_values=[b, 2, 3])
+    first.get_future_index(0).add(10)
+    second.get_future_index(0).add(20)
+    conn.flush()
+    third = conn.new_array(1, init_values=[5])
+    first.get_future_index(1).add(100)
+    conn.flush()
+    return [first[0], first[1]], [second[0], second[1], second[2]], [third[0]]
+
+
 def two_register_measurements(conn):
     """two measurements into registers before one flush, then a branch on the first"""
     q0 = Qubit(conn)
